@@ -281,6 +281,9 @@ class TransactionManager(Elaboratable):
 
             for trans_start in method_map.transactions_for(start):
                 for trans_end in method_map.transactions_for(end):
+                    if relation.conflict and trans_start is trans_end:
+                        # both ends of the conflict are reached from one transaction: it has no priority over itself
+                        continue
                     conflict = relation.conflict and not TransactionManager._transactions_exclusive(
                         method_map, trans_start, trans_end
                     )
